@@ -123,8 +123,25 @@ Fixpoint failing (n : nat) (l : list bool) : list nat :=
 '''
 
 SEG_PART = '''Definition seg_case := (str * nat * list str * nat)%type.
-Definition seg_agrees (c : seg_case) : bool :=
-  match c with (text, code, keys, nw) => same (obs_seg text) code keys nw end.
+(* the cases of one group share the Segment object (built once: call by value) *)
+Definition obs_seg_in (s0 : result seg) (text : str) : nat * list str * nat :=
+  match (match s0 with Ok s => parse_segment_in t TOLERANT e lenc s text | Err x => Err x end) with
+  | Err x => ((100 + exn_code x)%nat, [], 0%nat)
+  | Ok s => obs_log (validate_seg_log t e s)
+  end.
+Definition seg_agrees (s0 : result seg) (c : seg_case) : bool :=
+  match c with (text, code, keys, nw) => same (obs_seg_in s0 text) code keys nw end.
+Definition run_group (g : str * list seg_case) : list bool :=
+  match g with (name, cs) => let s0 := mk_segment t name None in map (seg_agrees s0) cs end.
+(* is the parsed tree in the domain of the conformance theorem (linked to a well-formed reference)? *)
+Definition linked_in (s0 : result seg) (c : seg_case) : bool :=
+  match c with (text, _, _, _) =>
+    match (match s0 with Ok s => parse_segment_in t TOLERANT e lenc s text | Err x => Err x end) with
+    | Ok s => linked_seg t e (Some (st_reference (s_st s))) s
+    | Err _ => true
+    end end.
+Definition linked_group (g : str * list seg_case) : list bool :=
+  match g with (name, cs) => let s0 := mk_segment t name None in map (linked_in s0) cs end.
 '''
 
 
@@ -132,31 +149,47 @@ def coq_strs(xs):
     return '[' + '; '.join(coq_str(x) for x in xs) + ']'
 
 
-def prelude(v):
-    return PRELUDE % {'mod': S.modname(v), 'v': coq_str(v), 'ec': S.ec_term(default_ec(v))}
+def prelude(v, ec=None):
+    return PRELUDE % {'mod': S.modname(v), 'v': coq_str(v), 'ec': S.ec_term(ec or default_ec(v))}
 
 
-def run_segment_model(run, cases, per_file=400):
-    """cases: dicts {v, text, code, keys, nlen}.  Returns number evaluated; disagreements recorded."""
+def run_segment_model(run, cases, per_file=120, check_linked=False):
+    """cases: dicts {v, text, code, keys, nlen}.  Returns (number evaluated, number of trees outside
+    the theorem's domain); disagreements are recorded on `run`."""
     byv = {}
     for c in cases:
-        if is_model_str(c['text']) and all(is_model_str(k) for k in c['keys']):
+        if is_model_str(c['text']) and all(is_model_str(k) for k in c['keys']) and len(c['text']) >= 3:
             byv.setdefault(c['v'], []).append(c)
     files, index = [], []
     for v in sorted(byv):
-        for k, sh in enumerate(shard(byv[v], per_file)):
-            L = [prelude(v), SEG_PART, 'Definition cases : list seg_case := [']
-            L.append(';\n'.join('(%s, %d%%nat, %s, %d%%nat)' % (coq_str(c['text']), c['code'], coq_strs(c['keys']), c['nlen'])
-                                for c in sh))
-            L.append('].')
-            L.append('Eval vm_compute in failing 0 (map seg_agrees cases).')
+        ordered = sorted(byv[v], key=lambda c: c['text'][:3])
+        for k, sh in enumerate(shard(ordered, per_file)):
+            groups, order = {}, []
+            for c in sh:
+                key = c['text'][:3]
+                if key not in groups:
+                    groups[key] = []
+                    order.append(key)
+                groups[key].append(c)
+            flat_cases, gtxt = [], []
+            for key in order:
+                rows = []
+                for c in groups[key]:
+                    flat_cases.append(c)
+                    rows.append('(%s, %d%%nat, %s, %d%%nat)' % (coq_str(c['text']), c['code'], coq_strs(c['keys']), c['nlen']))
+                gtxt.append('(%s, [\n%s])' % (coq_str(key), ';\n'.join(rows)))
+            L = [prelude(v), SEG_PART,
+                 'Definition groups : list (str * list seg_case) := [\n' + ';\n'.join(gtxt) + '\n].',
+                 'Eval vm_compute in failing 0 (flat_map run_group groups).']
+            if check_linked:
+                L.append('Eval vm_compute in failing 0 (flat_map linked_group groups).')
             files.append(('c04s_%d_%s_%d' % (os.getpid(), v.replace('.', '_'), k), '\n'.join(L) + '\n'))
-            index.append(sh)
+            index.append(flat_cases)
     results = coq_eval_many(files, timeout=1200)
-    evaluated = 0
+    evaluated = unlinked = 0
     for sh, (rc, out) in zip(index, results):
         lists = parse_nat_lists(out)
-        if rc != 0 or len(lists) != 1:
+        if rc != 0 or len(lists) != (2 if check_linked else 1):
             run.disagree('segment-validator', why='case file did not evaluate', output=out[-1500:])
             continue
         evaluated += len(sh)
@@ -164,7 +197,9 @@ def run_segment_model(run, cases, per_file=400):
             c = sh[i]
             run.disagree('segment-validator', version=c['v'], text=c['text'],
                          implementation={'code': c['code'], 'errors': c['keys'], 'length_warnings': c['nlen']})
-    return evaluated
+        if check_linked:
+            unlinked += len(lists[1])
+    return evaluated, unlinked
 
 
 def seg_case(text, v):
@@ -175,3 +210,372 @@ def seg_case(text, v):
         return {'v': v, 'text': text, 'code': 100 + S.outcome_code(ex), 'keys': [], 'nlen': 0, 'obj': None, 'rep': None}
     code, keys, nlen, rep = observe(s)
     return {'v': v, 'text': text, 'code': code, 'keys': keys, 'nlen': nlen, 'obj': s, 'rep': rep}
+
+
+# ------------------------------------------------------------------------------------------
+# conforming instances, built from a reference (standard tables or a message profile)
+
+VALUE = {
+    'DT': '20200101', 'DTM': '20200101', 'TM': '1200', 'NM': '1', 'SI': '1', 'ST': 'abc', 'ID': 'A', 'IS': 'A',
+    'TN': '555-1234', 'TX': 'text', 'FT': 'ft', 'WD': 'w', 'GTS': 'g', 'SNM': 's1', 'CM': 'cm', 'varies': 'x',
+}
+
+
+def is_seq(ref):
+    return isinstance(ref, (tuple, list)) and len(ref) >= 2 and ref[0] in ('sequence', 'choice') \
+        and isinstance(ref[1], (tuple, list))
+
+
+def fill_ref(ref, depth, override=None):
+    """text of one field repetition (depth 0), component (1) or subcomponent (2) that satisfies `ref`:
+    required children present, nothing else"""
+    if not is_seq(ref) or depth >= 2:
+        dt = ref[2] if isinstance(ref, (tuple, list)) and len(ref) > 2 else None
+        return VALUE.get(dt, 'x')
+    rows = ref[1]
+    if not rows:
+        return 'x'
+    req = [j for j, row in enumerate(rows) if row[2][0] >= 1 and row[2][1] != 0]
+    idx = req or [next((j for j, row in enumerate(rows) if row[2][1] != 0), 0)]
+    parts = []
+    upto = max(idx + list(override or []))
+    for j, row in enumerate(rows[:upto + 1]):
+        if override and j in override:
+            parts.append(override[j])
+        else:
+            parts.append(fill_ref(row[1], depth + 1) if j in idx else '')
+    return '^&'[depth].join(parts)
+
+
+def field_index(name):
+    try:
+        return int(name.rsplit('_', 1)[1])
+    except (ValueError, IndexError):
+        return None
+
+
+def fill_segment(sname, ref, overrides=None, always_first=True):
+    """a conforming line for the segment reference `ref` (required fields min times, nothing else;
+    when no field is required the first usable field is given so that the line is not bare).
+    overrides: {index: text}"""
+    overrides = dict(overrides or {})
+    cells = {}
+    if is_seq(ref):
+        for row in ref[1]:
+            i = field_index(row[0])
+            if i is None:
+                continue
+            mn, mx = row[2]
+            if mn >= 1 and mx != 0:
+                cells[i] = '~'.join([fill_ref(row[1], 0)] * mn)
+        if not cells and always_first:
+            for row in ref[1]:
+                i = field_index(row[0])
+                if i is not None and row[2][1] != 0:
+                    cells[i] = fill_ref(row[1], 0)
+                    break
+    cells.update(overrides)
+    cells = {i: x for i, x in cells.items() if x is not None}
+    n = max(cells) if cells else 0
+    return sname + ''.join('|' + cells.get(i, '') for i in range(1, n + 1))
+
+
+def msh_line(mname, v, ref):
+    """the header: MSH-1/2, MSH-9 with as many components as the version's MSH-9 has, MSH-12"""
+    p = mname.split('_')
+    nine = None
+    if is_seq(ref):
+        for row in ref[1]:
+            if row[0] == 'MSH_9' and is_seq(row[1]):
+                nine = len(row[1][1])
+    if nine is not None and nine >= 3:
+        mt = '%s^%s^%s' % (p[0], p[1] if len(p) > 1 else '', mname)
+    else:
+        mt = '%s^%s' % (p[0], p[1] if len(p) > 1 else '')
+    line = fill_segment('MSH', ref, {1: None, 2: None, 9: mt, 12: v})
+    # fill_segment numbers the cells from 1; MSH-1 is the separator itself and MSH-2 the delimiters
+    cells = line.split('|')[1:]
+    return 'MSH|^~\\&|' + '|'.join(cells[2:])
+
+
+def instance(ref, mode, lib):
+    """nodes ('S', name, ref) / ('G', name, ref, [nodes]) of an instance of a message or group reference:
+    mode 'req' = required children (min times), 'all' = every usable child at least once"""
+    out = []
+    for row in ref[1]:
+        name, cref, (mn, mx), kind = row
+        if mx == 0:
+            continue
+        n = mn if mode == 'req' else max(mn, 1)
+        for _ in range(n):
+            if kind == 'SEG':
+                out.append(('S', name, cref))
+            else:
+                kids = instance(cref, mode, lib)
+                if not kids:
+                    kids = first_member(cref, lib)
+                out.append(('G', name, cref, kids))
+    return out
+
+
+def first_member(ref, lib):
+    for row in ref[1]:
+        name, cref, (mn, mx), kind = row
+        if mx == 0:
+            continue
+        if kind == 'SEG':
+            return [('S', name, cref)]
+        kids = instance(cref, 'req', lib) or first_member(cref, lib)
+        return [('G', name, cref, kids)]
+    return []
+
+
+def flat(nodes):
+    for n in nodes:
+        if n[0] == 'S':
+            yield n
+        else:
+            for x in flat(n[3]):
+                yield x
+
+
+def structure_ok(ref):
+    """the entry defines an instantiable structure: sequence of well-shaped rows all the way down"""
+    if not is_seq(ref):
+        return False
+    for row in ref[1]:
+        if not (isinstance(row, (tuple, list)) and len(row) == 4 and row[3] in ('SEG', 'GRP')):
+            return False
+        if row[0] == 'ANYHL7SEGMENT' or not is_seq(row[1]):
+            return False
+        if row[3] == 'GRP' and not structure_ok(row[1]):
+            return False
+    return True
+
+
+def dup_conflict(ref, nodes):
+    """F15's computed predicate on an instance: at some level one child name is declared by two rows
+    and the number of children of that name exceeds the maximum of one of them (children are counted
+    per name)"""
+    names = [n[1] for n in nodes]
+    byname = {}
+    for row in ref[1]:
+        byname.setdefault(row[0], []).append(row[2])
+    for name, cards in byname.items():
+        if len(cards) > 1:
+            cnt = names.count(name)
+            if any(mx != -1 and cnt > mx for _, mx in cards) or any(cnt < mn for mn, _ in cards):
+                return True
+    for n in nodes:
+        if n[0] == 'G' and dup_conflict(n[2], n[3]):
+            return True
+    return False
+
+
+def has_duplicates(ref):
+    names = [row[0] for row in ref[1]]
+    if len(names) != len(set(names)):
+        return True
+    return any(row[3] == 'GRP' and has_duplicates(row[1]) for row in ref[1])
+
+
+def lines_of(nodes, mname, v, mutate=None):
+    lines = []
+    for k, n in enumerate(flat(nodes)):
+        if n[1] == 'MSH':
+            lines.append(msh_line(mname, v, n[2]))
+        else:
+            lines.append(fill_segment(n[1], n[2]))
+    return lines
+
+
+# ------------------------------------------------------------------------------------------
+# observation of the implementation: dumps, purity, wrapper
+
+
+def dump_el(el, ec):
+    cls = type(el).__name__
+    if cls == 'Segment':
+        return S.dump_seg(el, ec)
+    return '%s(%s)[%s]' % (cls[0], el.name, ''.join(dump_el(c, ec) for c in el.children))
+
+
+def shape_of(el):
+    """nesting of a parsed message: ('S', text) / ('G', name, [..])"""
+    out = []
+    for c in el.children:
+        if type(c).__name__ == 'Segment':
+            out.append(('S', c.to_er7()))
+        else:
+            out.append(('G', c.name, shape_of(c)))
+    return out
+
+
+def check_purity_and_wrapper(run, el, ec, where):
+    """the clauses of the property that hold for every element, conforming or not; returns the
+    (code, keys, nlen, report) observation"""
+    try:
+        enc0, enc0t, dmp0 = el.to_er7(), el.to_er7(trailing_children=True), dump_el(el, ec)
+    except Exception as ex:  # noqa
+        enc0 = enc0t = dmp0 = 'EXC ' + repr(ex)
+    code, keys, nlen, rep = observe(el)
+    try:
+        enc1, enc1t, dmp1 = el.to_er7(), el.to_er7(trailing_children=True), dump_el(el, ec)
+    except Exception as ex:  # noqa
+        enc1 = enc1t = dmp1 = 'EXC ' + repr(ex)
+    if (enc0, enc0t, dmp0) != (enc1, enc1t, dmp1):
+        run.fail('validate-not-pure', 'validate() changed the element (encoding or tree dump differ before/after)',
+                 before=enc0[:500], after=enc1[:500], dump_before=dmp0[:800], dump_after=dmp1[:800], **where)
+    code2, keys2, nlen2, rep2 = observe(el)
+    if (code, keys, nlen) != (code2, keys2, nlen2) or \
+            (rep is not None and rep2 is not None and [str(w) for w in rep.warnings] != [str(w) for w in rep2.warnings]):
+        run.fail('validate-not-pure', 'two validate() calls on the same element give different reports',
+                 first=[code, keys], second=[code2, keys2], **where)
+    if rep is None:
+        return code, keys, nlen, rep
+    # return_errors=True: is_valid exactly when the error list is empty
+    if bool(rep.is_valid) != (len(rep.errors) == 0):
+        run.fail('wrapper-is-valid', 'return_errors=True: is_valid differs from (errors == [])',
+                 is_valid=rep.is_valid, errors=[str(x) for x in rep.errors][:5], **where)
+    # raising form
+    try:
+        r = el.validate()
+        raised = None
+    except ValidationError as ex:
+        r, raised = None, ex
+    except Exception as ex:  # noqa
+        r, raised = None, ex
+    if rep.errors:
+        if not isinstance(raised, ValidationError) or norm(str(raised)) != norm(str(rep.errors[0])):
+            run.fail('wrapper-raise', 'validate() does not raise the first reported error',
+                     raised=repr(raised), returned=repr(r), first_error=str(rep.errors[0]), **where)
+    else:
+        if raised is not None or r is not True:
+            run.fail('wrapper-raise', 'validate() of an element without errors does not return True',
+                     raised=repr(raised), returned=repr(r), **where)
+    # report file
+    buf = io.StringIO()
+    try:
+        rep3 = el.validate(report_file=buf, return_errors=True)
+        want = ''.join('Error: %s\n' % x for x in rep3.errors) + ''.join('Warning: %s\n' % w for w in rep3.warnings)
+        if buf.getvalue() != want or sorted(norm(str(x)) for x in rep3.errors) != keys:
+            run.fail('wrapper-report', 'the report file does not list exactly the reported errors and warnings',
+                     report=buf.getvalue()[:800], expected=want[:800], **where)
+    except Exception as ex:  # noqa
+        run.fail('wrapper-report', 'validate(report_file=..., return_errors=True) raised', exc=repr(ex), **where)
+    return code, keys, nlen, rep
+
+
+# ------------------------------------------------------------------------------------------
+# segment level: conforming lines and single-point mutations, judged by the property
+
+
+def has_key(keys, prefix, name=None):
+    """some error key starts with `prefix` (and, for InvalidChildren, lists `name`)"""
+    for k in keys:
+        if k.startswith(prefix):
+            if name is None or name in k[len(prefix):].split(','):
+                return True
+    return False
+
+
+def judge(run, case, expect, where):
+    """expect: ('valid',) | (failure kind, key prefix, listed name or None)"""
+    code, keys = case['code'], case['keys']
+    if expect[0] == 'valid':
+        if code != 0 or keys:
+            run.fail('conforming-rejected', 'a conforming element does not validate',
+                     code=code, errors=keys[:6], **where)
+    else:
+        kind, prefix, name = expect
+        if code != 0 or not keys or not has_key(keys, prefix, name):
+            run.fail(kind, 'a single-point structural defect is not reported with an error naming the element',
+                     code=code, errors=keys[:6], expected_error=prefix + (name or ''), **where)
+
+
+def segment_variants(rng, lib, sname):
+    """[(line, expectation, mutation label)] for one segment of the tables"""
+    ref = lib.SEGMENTS[sname]
+    rows = ref[1]
+    out = [(fill_segment(sname, ref), ('valid',), 'conforming-required')]
+    every = {}
+    for row in rows:
+        i = field_index(row[0])
+        if i is not None and row[2][1] != 0:
+            every[i] = '~'.join([fill_ref(row[1], 0)] * max(row[2][0], 1))
+    out.append((fill_segment(sname, ref, every), ('valid',), 'conforming-all-fields'))
+    req = [row for row in rows if row[2][0] >= 1 and row[2][1] != 0]
+    for row in rng.sample(req, min(2, len(req))):
+        out.append((fill_segment(sname, ref, {field_index(row[0]): ''}, always_first=False),
+                    ('missing-required-not-reported', 'Missing|%s|%s' % (sname, row[0]), None), 'drop-required-field'))
+    single = [row for row in rows if row[2][1] == 1]
+    for row in rng.sample(single, min(2, len(single))):
+        val = fill_ref(row[1], 0)
+        out.append((fill_segment(sname, ref, {field_index(row[0]): val + '~' + val}),
+                    ('limit-not-reported', 'Limit|%s|%s' % (sname, row[0]), None), 'repeat-single-field'))
+    if rows:
+        last = max(field_index(row[0]) or 0 for row in rows)
+        open_ended = rows[-1][1][2] == 'varies' if len(rows[-1][1]) > 2 else False
+        name = '%s_%d' % (sname, last + 1) if open_ended else 'None'
+        out.append((fill_segment(sname, ref, {last + 1: 'beyond'}),
+                    ('foreign-child-not-reported' if open_ended else 'unknown-not-reported',
+                     'InvalidChildren|%s|' % sname, name), 'field-beyond-table'))
+    cplx = [row for row in rows if is_seq(row[1]) and row[1][1] and row[2][1] != 0]
+    if cplx:
+        row = rng.choice(cplx)
+        n = len(row[1][1])
+        base = fill_ref(row[1], 0)
+        text = base + '^' * (n - base.count('^')) + 'extra'
+        out.append((fill_segment(sname, ref, {field_index(row[0]): text}),
+                    ('unknown-not-reported', 'InvalidChildren|%s|' % row[0], 'None'), 'component-beyond-datatype'))
+        withreq = [(row, j) for row in cplx for j, c in enumerate(row[1][1]) if c[2][0] >= 1]
+        if withreq:
+            row, j = rng.choice(withreq)
+            other = next((k for k in range(len(row[1][1])) if k != j and row[1][1][k][2][1] != 0), None)
+            if other is not None:
+                ov = {j: '', other: fill_ref(row[1][1][other][1], 1)}
+                out.append((fill_segment(sname, ref, {field_index(row[0]): fill_ref(row[1], 0, ov)}),
+                            ('missing-required-not-reported', 'Missing|%s|%s' % (row[0], row[1][1][j][0]), None),
+                            'drop-required-component'))
+    leaf = [row for row in rows if not is_seq(row[1]) and row[1][2] not in ('varies', None) and row[2][1] != 0]
+    if leaf:
+        row = rng.choice(leaf)
+        out.append((fill_segment(sname, ref, {field_index(row[0]): 'a^b'}),
+                    ('wrong-datatype-not-reported', 'Datatype|%s|%s|' % (sname, row[0]), None), 'components-in-base-field'))
+    return out
+
+
+def segment_level(run, rng, dist):
+    cases = []
+    n_seg = 20 if not run.thorough else 100000
+    for v in S.VERSIONS:
+        lib = hl7apy.load_library(v)
+        ec = default_ec(v)
+        names = [s for s in sorted(lib.SEGMENTS) if S.ok_segment(lib, s) and s != 'MSH' and lib.SEGMENTS[s][1]]
+        rng.shuffle(names)
+        for sname in names[:n_seg]:
+            for line, expect, label in segment_variants(rng, lib, sname):
+                c = seg_case(line, v)
+                c['label'] = label
+                cases.append(c)
+                dist[label] = dist.get(label, 0) + 1
+                where = {'level': 'segment', 'version': v, 'segment': sname, 'text': line, 'mutation': label,
+                         'expect': list(expect)}
+                judge(run, c, expect, where)
+                if c['obj'] is not None:
+                    check_purity_and_wrapper(run, c['obj'], ec, where)
+            # breadth for the model: messy lines (surplus fields/components, blanks, repetitions)
+            for _ in range(1 if not run.thorough else 2):
+                c = seg_case(S.gen_segment_line(rng, lib, ec, sname, messy=True), v)
+                c['label'] = 'messy'
+                cases.append(c)
+                dist['messy'] = dist.get('messy', 0) + 1
+                if c['obj'] is not None:
+                    check_purity_and_wrapper(run, c['obj'], ec, {'level': 'segment', 'version': v, 'text': c['text'],
+                                                                 'mutation': 'messy'})
+        for text in ('ZXX|a|b', 'ZXX|b^c&d', 'Z1A|x~y|z'):
+            c = seg_case(text, v)
+            c['label'] = 'z-segment'
+            cases.append(c)
+            dist['z-segment'] = dist.get('z-segment', 0) + 1
+    return cases
